@@ -133,7 +133,41 @@ def decode_tables(ctx, key):
     return g, P, oks, errs_otherwise
 
 
+def r12_10(ctx, rep):
+    """R12.10: the codec is a function of its arguments: no thread-local / static / global cell is touched in the encode or decode cones."""
+    rep.rule("R12.10", "WALRecord / RaftLogState encode and decode keep no state between calls: their cones contain no access to a thread-local, "
+                       "a static cell or a lazily initialised global (a staging buffer that survives an error return makes the next record's "
+                       "bytes depend on the previous call)")
+    bad = []
+    n_calls = 0
+    for rx in (c09.ENCODE_KEY, c09.DECODE_KEY, r"RaftLogState<T> as codeq::Encode>::encode$", r"RaftLogState<T> as codeq::Decode>::decode$"):
+        keys = [k for k in ctx.prog.bodies if re.search(rx, k)]
+        for k in keys:
+            g = ctx.graph(k)
+            for n in g.nodes:
+                t = g.term(n)
+                if t["k"] != "call" or n in g.callee_inst:
+                    continue
+                n_calls += 1
+                if cmatch(t, r"thread::local::LocalKey|thread::LocalKey|sync::(once_lock::)?OnceLock|cell::(once::)?OnceCell|sync::(lazy_lock::)?LazyLock|"
+                             r"sync::atomic::Atomic\w*::|sync::(poison::)?(mutex::)?Mutex::<T>::lock$|sync::(poison::)?(rwlock::)?RwLock::<T>::(read|write)$"):
+                    bad.append((short_key(k), cpath(t), g.where(n)))
+    seen = set()
+    for k, c, where in bad:
+        key = "%s|shared-state:%s" % (k, c.split("::")[-1])
+        if key in seen:
+            continue
+        seen.add(key)
+        rep.violation("R12.10", key, c, "the codec touches state that outlives the call (%s): encoding/decoding is no longer a function of the "
+                      "record and the bytes, so round trips depend on what happened before (e.g. an earlier call that returned an error)" % c,
+                      where=where)
+    if not bad:
+        rep.ok("R12.10", "codec cones", "%d external call site(s), none touches thread-local / static / lock / atomic state" % n_calls)
+    rep.floor("R12.10", "external call sites in the codec cones", n_calls, 10)
+
+
 def run(ctx, rep):
+    r12_10(ctx, rep)
     rep.rule("R12.1", "the encoder's variant->tag table is injective over all WALRecord variants and the decoder's tag->variant table is its inverse; unknown tags return Err")
     rep.rule("R12.2", "for every variant the sequence of encoded field types equals the sequence of decoded types, and decoded values land in the same field positions")
     rep.rule("R12.3", "RaftLogState: the version written is the only version accepted; encode order = decode order = all declared fields in declaration order")
